@@ -47,7 +47,14 @@ CopyOK ==
   IN /\ Ln.k \in ClassOf3(res.k)
      /\ res.k = "ok" => Recs3(Ln.post) = PostRecs(res.d, Ln.sel, <<Ln.f, Ln.u>>)
 
+\* C11 is relative to what sum computes: a line whose logged real sum deviates from the specification's sum is C10's
+SumAsSpecified ==
+  ("sumrecs" \notin DOMAIN Ln) \/
+  LET sm == SumOp(FilesOf(Ln.files), Ln.sel, Ln.f, Ln.u)
+  IN Ln.sumk \in ClassOf3(sm.k) /\ (sm.k = "ok" => Recs3(Ln.sumrecs) = AllSeriesRecs(sm.ts, 1))
+
 SumCopyOK ==
+  ~SumAsSpecified \/
   LET res == SumCopyOp(FilesOf(Ln.files), FileOf(Ln.dst), Ln.sel, Ln.f, Ln.u, CfgOf(Ln.ccfg))
   IN /\ Ln.k \in ClassOf3(res.k)
      /\ res.k = "ok" => Recs3(Ln.post) = PostRecs(res.d, Ln.sel, <<Ln.f, Ln.u>>)
@@ -64,6 +71,7 @@ GlobDiffOK ==
      /\ res.k \in {"clean", "diff"} => Recs5(Ln.recs) = res.recs
 
 SumDiffOK ==
+  ~SumAsSpecified \/
   LET res == SumDiffOp(FilesOf(Ln.files), FileOf(Ln.dst), Ln.sel, Ln.f, Ln.u)
   IN /\ Ln.k \in ClassOf3(res.k)
      /\ res.k \in {"clean", "diff"} => Recs5(Ln.recs) = res.recs
